@@ -587,8 +587,6 @@ def classify_failure(kind, what, toks, prev, ho, entered_unsynced, stale_types):
         if what and what[0].startswith("dims") and name in ("qAR", "gAR", "qAC", "gAC", "qARS", "qACS", "qCR", "qCC") \
                 and any(0 < abs(v) < Fraction(5e-324) / 2 for v in vals):
             return "drift:dims-underflow-implicit"
-        if what and what[0].startswith("dims") and name in ("gAR", "gAC") and any(v == 0 for v in vals[(2 if name == "gAR" else 3):]):
-            return "drift:dims-gmp-zero-entry-implicit"
         if name in ("gAC", "gACS") and prev is not None and prev.Q is not None and prev.Q.lsense != int(ho.extras.get("psense", prev.Q.lsense)):
             return "drift:gmp-addcol-sense-after-clear"
         return "drift:%s:%s" % (name, what[0].split("[")[0].split("(")[0] if what else "")
@@ -927,6 +925,50 @@ class Gen:
         return {"head": head, "ops": ops}
 
 
+
+def probes(ck, exe):
+    """histories outside the modelled domain, run on the implementation only: the single-add GMP entry points with an
+    explicit zero among the values (the row/column files of the rational LP stop mirroring each other)"""
+    d1, d0, d5, inf = dy(1), dy(0), dy(5), dy(INF)
+    base = ["rAC %s %s %s 0" % (d1, d0, inf), "rAR %s %s 1 0 %s" % (d0, d5, d1)]
+    cases = [{"head": "1 -1", "ops": base + ["gAR 0/1 1/1 1 4 0/1"]},
+             {"head": "1 -1", "ops": base + ["gAC 1/1 0/1 1/1 1 6 0/1"]},
+             {"head": "1 1", "ops": ["gAR -2/1 5/1 2 0 0/1 1 -4/1", "gAR -1/1 6/1 1 0 -1/1", "rE 0 0 1:1", "rCC 0 0:0 -1:0 3:0 1 1 1:0"]}]
+    # DESIGN.md section 9 item 8: after a floating-point solve with persistent scaling the real LP is stored scaled; the
+    # copy made for an exact solve in SYNCMODE_ONLYREAL must still be the LP the accessors report
+    scaled = {"head": "0 -1 2 1", "ops": ["rAC %s %s %s 0" % (d1, d0, inf), "rAC %s %s %s 0" % (d1, d0, dy(10)),
+                                          "rAR %s %s 2 0 %s 1 %s" % (d1, inf, dy(1000), d1), "rAR %s %s 2 0 %s 1 %s" % (dy(2), inf, d1, dy(3)),
+                                          "OPT 0", "XS"]}
+    cases.append(scaled)
+    base_p = os.path.join(vlib.BUILD, "run", "C07.%d.probe.cases" % os.getpid())
+    write_cases(base_p, cases)
+    rc, out, err = vlib.sh([exe, "run", base_p], timeout=600)
+    os.remove(base_p)
+    for c, b in zip(cases, blocks(out)):
+        for j, line in enumerate(b):
+            o = parse_obs(line)
+            if o.mode is None:
+                continue
+            ck.evaluated(("probe", c["ops"][j - 1] if j else "init"))
+            if c is scaled:
+                if o.op == "XS":
+                    f = exact_copy_failures(o)
+                    if f:
+                        ck.violation("onlyreal-sync-copies-scaled-lp",
+                                     "after a floating-point solve with persistent scaling, _syncLPRational (SYNCMODE_ONLYREAL, before an exact "
+                                     "solve) copies the scaled LP: the rational LP differs from the LP the real accessors report in %s" % f,
+                                     {"head": c["head"], "ops": c["ops"][:j], "implementation": line[:3000], "failure": f})
+                continue
+            f = mirror_failures(o) or (drift_failures(o) if o.mode == 1 else [])
+            if f:
+                kind = "row-col-files" if "files" in f[0] else f[0].split("(")[0].split("[")[0]
+                ck.violation("gmp-add-explicit-zero:" + kind,
+                             "addRowRational/addColRational(const mpq_t*) with an explicit zero value: %s after %s" % (f[:2], c["ops"][:j]),
+                             {"head": c["head"], "ops": c["ops"][:j], "implementation": line[:3000], "failure": f})
+                break
+    if rc != 0:
+        ck.violation("crash:probe", "the implementation crashed in a probe history (rc=%d)" % rc, {"stderr": err[-1500:]})
+
 def corpus_cases():
     """minimal histories of the recorded findings and of every sync-mode transition (run first)"""
     d1, d0, d5 = dy(1), dy(0), dy(5)
@@ -945,8 +987,6 @@ def corpus_cases():
     cs.append({"head": "1 -1", "ops": base + ["M 0", "M 2", "qAR 1/1 1/1 1 0 2/1", "SQ"]})
     # implicit growth through a value that underflows
     cs.append({"head": "1 -1", "ops": base + ["qAR 0/1 1/1 2 0 1/3 3 1/1" + "0" * 400]})
-    # the GMP single-add entry points create columns / rows for explicit zero entries in the rational LP only
-    cs.append({"head": "1 -1", "ops": base + ["gAR 0/1 1/1 1 4 0/1", "gAC 1/1 0/1 1/1 1 6 0/1"]})
     # AUTO entered from MANUAL
     cs.append({"head": "2 -1", "ops": ["rAC %s %s %s 0" % (d1, d0, inf), "M 1", "rAR %s %s 1 0 %s" % (d0, d5, d1)]})
     # GMP addCol after clear under MINIMIZE
@@ -1002,6 +1042,8 @@ def main():
 
     # conversions as the code performs them against the model's rounding oracle
     conv_check(ck, exe, model)
+    if not ck.args.replay:
+        probes(ck, exe)
 
     results = evaluate(exe, model, cases, "main", counts=ck.count)
     for k, v in enumerate(results):
